@@ -35,6 +35,11 @@ class HarnessError(Exception):
     pass
 
 
+def safe(s):
+    """Printable / JSON-able form of a string that may carry undecodable file-name bytes (surrogate escapes)."""
+    return s.encode("utf-8", "backslashreplace").decode("utf-8") if isinstance(s, str) else s
+
+
 # --------------------------------------------------------------------------------------------
 # build
 
@@ -235,12 +240,12 @@ def digest_world(w):
     h = hashlib.sha256()
     for p in sorted(w):
         e = w[p]
-        h.update(p.encode() + b"\0" + e["t"].encode())
+        h.update(p.encode("utf-8", "surrogateescape") + b"\0" + e["t"].encode())
         if e["t"] == "f":
             h.update(b"%o" % e.get("mode", 0o644))
             h.update(hashlib.sha256(e["data"]).digest())
         elif e["t"] == "l":
-            h.update(e["target"].encode())
+            h.update(e["target"].encode("utf-8", "surrogateescape"))
         else:
             h.update(b"%o" % e.get("mode", 0o755))
     return h.hexdigest()
@@ -386,7 +391,7 @@ class RunResult:
             rest = list(ev[3:])
             if ev[1] in ("OPEN_R", "OPEN_W") and not str(rest[2]).startswith("-"):
                 rest[2] = "fd"
-            h.update(("\t".join(str(x) for x in [ev[0], ev[1], norm_path(ev[2])] + rest) + "\n").encode())
+            h.update(("\t".join(str(x) for x in [ev[0], ev[1], norm_path(ev[2])] + rest) + "\n").encode("utf-8", "surrogateescape"))
         return h.hexdigest()
 
     def fired_counts(self):
@@ -400,7 +405,7 @@ class RunResult:
 
 def parse_trace(path, res):
     try:
-        with open(path, "r", errors="replace") as f:
+        with open(path, "r", errors="surrogateescape") as f:
             lines = f.read().split("\n")
     except OSError:
         return
@@ -466,6 +471,8 @@ def run_breadlog(root, check=False, plan=None, knobs=None, binary=None):
         cwd = "/"
         cfg = os.path.join(proj, cfgname)
     tmpdir = os.path.join(root, knobs.get("tmpdir", "tmp"))
+    if knobs.get("tmpdir_make"):
+        os.makedirs(tmpdir, exist_ok=True)    # (exec_run has already put it into the world; this serves drivers that materialise themselves)
     if knobs.get("tmpdir_rel"):
         tmpdir = os.path.relpath(tmpdir, cwd)     # a relative TMPDIR is resolved against the working directory
     if knobs.get("tmpdir_slash"):
